@@ -584,6 +584,11 @@ func domConsKeys(env *Env) error {
 	maxSteps := env.Int("steps", 60)
 	rng := NewRNG(env.Report.Seed)
 	env.Report.Domain = "conskeys"
+	histEntriesBoundary(env, "C07.halt") // dom_conskeys_gate.go
+	if env.Int("gate", 0) == 1 {
+		scenarioF07c(env)
+		scenarioF07d(env)
+	}
 	if env.Int("f07a", 0) == 1 {
 		scenarioF07a(env)
 	}
